@@ -505,7 +505,10 @@ class Check:
               "coverage": cov, "assumptions": self.assumptions,
               "wall_s": round(time.time() - self.t0, 2), "violations": len(report),
               "known_findings_hit": [k["id"] for k in self.known_hit], "notes": self.notes}
-        with open(os.path.join(EVID, f"{self.pid}.json"), "w") as f:
+        evpath = os.path.join(EVID, f"{self.pid}.json")
+        if os.environ.get("VERIF_NO_EVIDENCE"):      # seeded-mutant runs keep the committed evidence
+            evpath = os.path.join(BUILD, f"evidence-{self.pid}.json")
+        with open(evpath, "w") as f:
             json.dump(ev, f, indent=1, default=str)
         if rc == 0:
             print(f"OK property={self.pid} tier={self.tier} seed={self.seed} "
